@@ -24,7 +24,7 @@ class ExecSide(object):
     exec_trusted = ('executor side: harness/execlib.py (real Popen executor object without __init__, four real threads '
                     'under a sys.settrace line-granular scheduler, fake subprocess.Popen/os.killpg/clock); steps and '
                     'emissions compared with RP.Exec.Model.run inside Coq')
-    exec_rule = ('executor scenarios of 1-3 tasks x launch faults x run-time limit x 0-2 cancel messages under sampled '
+    exec_rule = ('executor scenarios of 1-3 tasks x launch faults x run-time limit x process outlives the kill x 0-2 cancel messages under sampled '
                  'thread schedules (as for C07)')
 
     @classmethod
@@ -47,9 +47,10 @@ class ExecSide(object):
         for f in X.FAULTS:
             for to in (False, True):
                 for named in (False, True):
-                    sc = {'batches': [[{'uid': 1, 'fault': f, 'timeout': to}]],
-                          'cancels': [[1]] if named else [], 'exit_codes': {'1': 3}}
-                    yield {'kind': KIND, 'sc': dict(sc, sched=X.gen_sched(rng, sc, rng.randint(4, 40)))}
+                    for stub in ((False, True) if f == 'none' else (False,)):     # a process that outlives the kill
+                        sc = {'batches': [[{'uid': 1, 'fault': f, 'timeout': to, 'stubborn': stub}]],
+                              'cancels': [[1]] if named else [], 'exit_codes': {'1': 3}}
+                        yield {'kind': KIND, 'sc': dict(sc, sched=X.gen_sched(rng, sc, rng.randint(4, 40)))}
 
     def run_impl(self, case):
         if self.is_exec(case):
